@@ -2,6 +2,7 @@ import M3d.Lemmas.Triangulate
 import M3d.Lemmas.TriCert
 import M3d.Lemmas.TriMore
 import M3d.Lemmas.TriProfile
+import M3d.Lemmas.TriMono
 import M3d.Lemmas.Surface
 /-!
 # C14 — triangulation covers the polygon exactly
@@ -53,6 +54,14 @@ example :
     ValidSeq sq [0, 1] ∧ sumArea2 (clipSeq sq [0, 1]) = -2 ∧ shoelace2 sq = -2 := by
   refine ⟨by simp [ValidSeq], by decide +kernel, by decide +kernel⟩
 
+/-- **`Triangulate` uses only input vertices** and returns at most `n − 2` triangles: for the
+faithful model `triangulate` (colinear removal, first-ear search with the exact ear test,
+recursion — either version of the diagonal test), whenever it returns (no panic). -/
+theorem triangulate_uses_input_vertices (strictDiag : Bool) (fuel : Nat) (poly : List (P2 K))
+    (ts : List (PTri K)) (h : triangulate strictDiag fuel poly = some ts) :
+    (∀ t ∈ ts, t.1 ∈ poly ∧ t.2.1 ∈ poly ∧ t.2.2 ∈ poly) ∧ ts.length + 2 ≤ poly.length :=
+  triangulate_mem strictDiag fuel poly ts h
+
 /-! ## The certificate checker -/
 
 /-- The area equation of the checker is redundant: it follows from the edge conditions. -/
@@ -93,6 +102,40 @@ example :
     let c : Nat → P2 Rat := fun i => ([⟨0, 0⟩, ⟨0, 1⟩, ⟨1, 1⟩, ⟨1, 0⟩] : List (P2 Rat)).getD i ⟨0, 0⟩
     certOk c 4 true (loopEdges [4]) [(0, 1, 2), (0, 2, 3)] = true ∧
     certOk c 4 true (loopEdges [4]) [(0, 1, 2), (0, 3, 2)] = false := by
+  decide +kernel
+
+/-- **`triangulation_cover_partial`** (the winding-number form of "inside, non-overlapping,
+covering").  If the returned triangles glue to the boundary without T-junctions (the unrefined
+edge conditions: `Glued bnd (dirEdges tris)`, what `edgesOkG false` decides), then around EVERY
+point `p` the winding numbers (signed crossings of the ray from `p`) of all triangles add up to
+the winding number of the input boundary.
+
+Geometric reading: a positively oriented non-degenerate triangle has winding number 1 around the
+points strictly inside it and 0 around the points strictly outside, so the number of triangles
+covering a generic point equals the boundary's winding number there — 1 inside a correctly
+oriented simple region (outer loops minus holes), 0 outside: the triangles do not overlap, stay
+inside and cover.  What is missing from a full mechanisation (hence `_partial`):
+(a) `winding (triangle) p = [p strictly inside]` for an oriented triangle and `p` off its edge
+lines (a finite case analysis over the y-order of the corners, not done);
+(b) the polygonal Jordan theorem "the winding number of a simple, correctly oriented boundary is
+the indicator of the even-odd interior" for the INPUT (a fact about the input, not the output);
+(c) for certificates that need T-junction refinement, subdivision-additivity of `crossing` for
+`p` off the segment (the generic chain statement is clause 4 of
+`triangulation_certificate_sound`). -/
+theorem triangulation_cover_partial (c : Nat → P2 K) (bnd : List Edge) (tris : List Tri)
+    (h : Glued bnd (dirEdges tris)) (p : P2 K) :
+    sumF (fun t => winding c p (triEdges t)) tris = winding c p bnd := by
+  have h1 : sumF (fun t => winding c p (triEdges t)) tris = sumF (crossing c p) (dirEdges tris) := by
+    unfold dirEdges; rw [sumF_flatMap]; rfl
+  rw [h1]; exact glued_sum h (crossing c p) (crossing_antisymm c p)
+
+/-- Non-vacuity and a sanity check of the functional: around the centre of the unit square
+(clockwise) each of the two triangles of the split has winding number 0 or −1, the boundary −1. -/
+example :
+    let c : Nat → P2 Rat := fun i => ([⟨0, 0⟩, ⟨0, 1⟩, ⟨1, 1⟩, ⟨1, 0⟩] : List (P2 Rat)).getD i ⟨0, 0⟩
+    let p : P2 Rat := ⟨1/4, 1/2⟩
+    winding c p (triEdges (0, 1, 2)) = -1 ∧ winding c p (triEdges (0, 2, 3)) = 0 ∧
+      winding c p (loopEdges [4]) = -1 := by
   decide +kernel
 
 /-- **Discrete Stokes** in the form used for `diagonals_cancel` and the certificate: interior edges
@@ -146,6 +189,59 @@ and `0 2 3`. -/
 example : ([[0, 1, 2], [0, 2, 3]].flatMap cycleEdges).Perm
     ([(0, 1), (1, 2), (2, 3), (3, 0)] ++ ([(0, 2)] ++ [(0, 2)].map swap)) := by
   decide
+
+/-! ## The stack algorithm (`triangulateMonotoneMesh`) -/
+
+/-- **`monotone_stack_area`.**  Run the stack algorithm (the model `monoLoopG` of the loop of
+`triangulateMonotoneMesh`: first vertex a start vertex, then chain vertices classified `upper` /
+`lower` in sweep order, finally the end vertex) with every fan triangle oriented as the chain
+geometry dictates (`rawFan`: `{stack[i], stack[i+1], v}` on the upper chain, first two swapped on
+the lower chain — the rule the same-chain branch of the Go code applies literally).  Then, for
+EVERY classification sequence and all coordinates,
+
+* the signed areas of the emitted triangles sum to the shoelace area of the polygon
+  `start, upper chain →, end, lower chain ←`;
+* the stack is empty at the end (no "polygon was not monotone" panic from the final check);
+* exactly `n − 2` triangles are emitted for the `n` vertices.
+
+Relation to the Go code: it orients the fan triangles with `if !isPolygonClockwise(tri) {swap}`
+(`fixCW`), which yields the same triangle as `rawFan` whenever that one is clockwise
+(`fixCW_eq_rawFan` below) — true for every fan triangle of an x-monotone clockwise polygon (a
+geometric fact that is not mechanised; it is what the exact `mono` correspondence and the
+orientation clause of the certificate check on every run). -/
+theorem monotone_stack_area (c : Nat → P2 K) (ty : Nat → VType) (n : Nat) (v0 v1 e : Nat) (mid : List Nat)
+    (hv1 : ty v1 = .upper ∨ ty v1 = .lower) (hmid : ∀ v ∈ mid, ty v = .upper ∨ ty v = .lower)
+    (he : ty e = .end) :
+    let s := monoLoopG rawFan c ty n ⟨[v0], .start, [], true⟩ 0 (v1 :: mid ++ [e])
+    sumF (triOrient c) s.tris = shoelace2 ((monoPolygon ty v0 (v1 :: mid) e).map c) ∧ s.stack = [] ∧
+      s.tris.length + 2 = (monoPolygon ty v0 (v1 :: mid) e).length :=
+  monoRun_spec c ty n v0 v1 e mid hv1 hmid he
+
+/-- `fixCW` (the Go orientation repair) returns the chain-dictated triangle whenever that triangle
+is strictly clockwise. -/
+theorem fixCW_eq_rawFan (c : Nat → P2 K) (ty : VType) (t : Tri) (h : triOrient c (rawFan ty t) < 0) :
+    fixCW c t = rawFan ty t := by
+  unfold rawFan at h ⊢
+  by_cases hu : ty = .upper
+  · rw [if_pos hu] at h ⊢
+    have h'' : orient (c t.1) (c t.2.1) (c t.2.2) ≤ 0 := le_of_lt h
+    unfold fixCW; rw [if_pos h'']
+  · rw [if_neg hu] at h ⊢
+    have h' : 0 < triOrient c t := by
+      have := triOrient_flip c t; rw [this] at h; linarith
+    have h'' : ¬ orient (c t.1) (c t.2.1) (c t.2.2) ≤ 0 := not_le.2 h'
+    unfold fixCW; rw [if_neg h'']; rfl
+
+/-- Non-vacuity: the clockwise monotone pentagon `0:(0,0) 1:(1,2) 2:(2,-1) 3:(3,1) 4:(4,0)`
+(sweep order 0,1,2,3,4; 1 and 3 on the upper chain, 2 on the lower chain): three triangles,
+total `2·area = -13`, equal to the shoelace sum of the polygon `0 1 3 4 2`. -/
+example :
+    let c : Nat → P2 Rat := fun i => ([⟨0, 0⟩, ⟨1, 2⟩, ⟨2, -1⟩, ⟨3, 1⟩, ⟨4, 0⟩] : List (P2 Rat)).getD i ⟨0, 0⟩
+    let ty : Nat → VType := fun i => if i = 0 then .start else if i = 4 then .end else if i = 2 then .lower else .upper
+    let s := monoLoopG rawFan c ty 5 ⟨[0], .start, [], true⟩ 0 [1, 2, 3, 4]
+    s.tris.length = 3 ∧ sumF (triOrient c) s.tris = -13 ∧ monoPolygon ty 0 [1, 2, 3] 4 = [0, 1, 3, 4, 2] ∧
+      (monoLoop c ty 5 ⟨[0], .start, [], true⟩ 0 [1, 2, 3, 4]).tris = s.tris := by
+  decide +kernel
 
 /-! ## The sweep's vertex classification (`triangulateSweepState.VertexType`) -/
 
